@@ -76,6 +76,7 @@ def dispatch(tier, seed):
     from elftools.dwarf.structs import DWARFStructs
     from specs import dwarf_ops as D
     rng = random.Random(seed + 12)
+    REG_CODES = D.registry_opcodes()
     obs = {}
     cfgs = [(le, fmt, asz) for le in (True, False) for fmt in (32, 64) for asz in (4, 8)]
     orders = [cfgs, list(reversed(cfgs))]
@@ -113,6 +114,17 @@ def dispatch(tier, seed):
                     fail(rec, 'operation %s of the standard is not in DW_OP_name2opcode' % name)
                     continue
                 raw, args = D.gen_operands(kinds, cfg, rng)
+                if name in REG_CODES and code not in REG_CODES[name]:
+                    wc = sorted(REG_CODES[name])[0]
+                    try:
+                        seen = repr(_real_parse(parser, bytes([wc]) + raw))[:300]
+                    except Exception as e:
+                        seen = 'raised %r' % (e,)
+                    fail(rec, 'operation %s has opcode %#x in DW_OP_name2opcode, the registry assigns %s' % (
+                        name, code, [hex(c) for c in sorted(REG_CODES[name])]),
+                         dict(confirmed=True, how='DWARFExprParser.parse_expr on the operation encoded with its registry opcode',
+                              input=(bytes([wc]) + raw).hex(), observed=seen, expected=repr([(wc, name, args, 0)])[:300]))
+                    continue
                 if code not in table:
                     fail(rec, 'configuration %r: no dispatch entry for %s (opcode %#x)' % (cfg, name, code),
                          dict(confirmed=True, how='DWARFExprParser.parse_expr on an expression using the operation',
@@ -191,6 +203,8 @@ def dispatch(tier, seed):
                     detail=bad and repr(bad)[:300], native=bad))
     return dict(obligations=out, assumptions=[
         'operand kinds transcribed from DWARF v5 7.7.1 and the GNU/WASM extension descriptions',
+        'opcode numbers: LLVM 14 Dwarf.def (vendored) and, for the GNU vendor block it omits, a hand transcription of binutils '
+        'dwarf2.def (registry/supplement.json; not re-derivable offline); DW_OP_WASM_location has no registry number',
         'BOUNDED: whole-expression parsing (offsets, nesting, exact consumption) is a seeded sample, not a proof',
         'the four composite operand parsers (block, typed block, nested expression, WASM location) are identified by '
         'their factory and validated by concrete replay in every configuration'],
